@@ -59,6 +59,9 @@ class BaseClient:
         """refine the state with the outcome of a branch condition (default: no refinement)"""
         return S
 
+    def observe(self, expr, S, stmt):
+        """an expression evaluated outside a simple statement (if/while test, for iterable): clients that judge *uses* look at it here"""
+
 
 class Flow:
     def __init__(self, client):
@@ -98,12 +101,14 @@ class Flow:
         if isinstance(s, ast.Continue):
             return None, [("continue", S, s)]
         if isinstance(s, ast.If):
+            c.observe(s.test, S, s)
             ex = [("exc", S, s)] if self.may_raise(s.test) else []
             S1, e1 = self.block(s.body, c.assume(s.test, True, S))
             S2, e2 = self.block(s.orelse, c.assume(s.test, False, S))
             return join(S1, S2), ex + e1 + e2
         if isinstance(s, (ast.For, ast.While)):
             head = s.iter if isinstance(s, ast.For) else s.test
+            c.observe(head, S, s)
             ex = [("exc", S, s)] if self.may_raise(head) else []
             c.enter_loop(s)
             Sin, Sb, body_ex, brk = S, None, [], None
